@@ -173,7 +173,7 @@ def extent_sweep(report):
                 n += 1
                 try:
                     bv.reset()
-                    it = Interp(f, MODELS, hooks=check_hashapi.hooks_for(fam, t))
+                    it = Interp(f, MODELS, hooks=check_hashapi.hooks_for(fam, t, f))
                     cell = it.new_cell(check_hashapi.sym_hasher(it, t, p), "hasher")
                     _, dcell = bytes_cell(it, "data", ln)
                     it.call_instance(upd[0], [Ptr(cell, ()), Ptr(dcell, (), idx=0, meta=ln, ety="u8")])
@@ -182,10 +182,36 @@ def extent_sweep(report):
                         bad.setdefault("%s::update" % facts.abbrev(t), "update of %d bytes at buffer position %d: %s" % (ln, p, d.site[0]))
                 except Undecided as e:
                     report.undecide("R16.2", "%s::update len=%d" % (facts.abbrev(t), ln), str(e))
+    # block cipher entry points on exact-size key and block objects
+    from .check_threefish import SIZES, find
+    for name, nw in SIZES.items():
+        nb = nw * 8
+        for what in ("new", "with_tweak+encrypt_block+decrypt_block"):
+            n += 1
+            try:
+                bv.reset()
+                it = Interp(f, MODELS)
+                _, kcell = bytes_cell(it, "key", nb)
+                if what == "new":
+                    k = find(f, r"^<threefish_cipher::%s as cipher::block::NewBlockCipher>::new$" % name)
+                    it.call_instance(k, [Ptr(kcell, ())])
+                else:
+                    wt = find(f, r"^threefish_cipher::%s::with_tweak$" % name)
+                    fish = it.call_instance(wt, [Ptr(kcell, ()), bv.inp("t0", 64), bv.inp("t1", 64)])
+                    fcell = it.new_cell(fish, "fish")
+                    _, bcell = bytes_cell(it, "block", nb)
+                    for tr, m in (("BlockEncrypt", "encrypt_block"), ("BlockDecrypt", "decrypt_block")):
+                        k = find(f, r"^<threefish_cipher::%s as cipher::block::%s>::%s$" % (name, tr, m))
+                        it.call_instance(k, [Ptr(fcell, ()), Ptr(bcell, ())])
+            except Diverge as d:
+                if "memory" in str(d.site) or "out-of-bounds" in str(d.site) or "exceeds" in str(d.site):
+                    bad.setdefault("%s::%s" % (name, what), "%s on an exact-size key/block: %s" % (what, d.site[0]))
+            except Undecided as e:
+                report.undecide("R16.2", "%s::%s" % (name, what), str(e))
     for api, msg in bad.items():
         report.violated("R16.2", "extent:%s" % api, "%s accesses memory outside the caller's slice: %s" % (api, msg[:300]))
     if not bad:
         report.ok("R16.2", "length sweep: %d (API, length) evaluations stay inside their slices" % n,
-                  sample={"apis": "c2_chacha try_apply_keystream; Update::update of 15 hashers", "evaluations": n})
+                  sample={"apis": "c2_chacha try_apply_keystream; Update::update of 15 hashers; Threefish new/with_tweak/encrypt/decrypt", "evaluations": n})
     report.extra["extent_sweep_evaluations"] = n
     return n
